@@ -91,7 +91,7 @@ def cases(draw, max_n=45):
     late = [i for i in range(len(members)) if draw(st.integers(0, 3)) == 0]
     if len(late) == len(members):
         late = late[1:]
-    pre = draw(st.integers(1, n))
+    pre = draw(st.one_of(st.just(0), st.integers(0, n)))  # a strategy often starts with no candles at all
     ops = []
     pos = pre
     for _ in range(draw(st.integers(1, 6))):
